@@ -100,7 +100,7 @@ def spec(cfg, structs, f):
 
 def run(tier, seed):
     t0 = time.time(); idx, info = flow.prepare()
-    files, notes, cover = f1.build(idx, CFGS, 'cnv', spec, per_file=80)
+    files, notes, cover = f1.build(idx, CFGS, 'cnv', spec, per_file=80, pid='C14')
     per_fn = 6 if tier == 'quick' else 60
     return f1.run('C14', tier, seed, idx, info, t0, files, notes, cover, core.HDR, per_fn,
         'one lemma per conversion (as_*, From, TryFrom, mask-to-number, pair/extend/truncate moves) between the 40 numeric vector types and the quaternion types, sse2 + scalar-math + core-simd, for all Ops; correspondence: %d random calls per conversion with boundary-biased lanes (type MIN/MAX +-1, 2^k, inf, NaN, values just outside each target range), which validates the concrete cast semantics of Sem.v against rustc' % per_fn,
